@@ -638,6 +638,26 @@ def tucker_scale(spec):
     return s
 
 
+def cancelling_tucker(rng, shape, delta):
+    """Tucker structure [U_0 | U_0], U_1, ..., with core [X ; -X + delta*E]: expansion = delta * rank-1 term."""
+    Rs = [rng.choice([1, 2, 3]) for _ in shape]
+    Us = [G.rint_mat(rng, n, r) for n, r in zip(shape, Rs)]
+    for U in Us:                                   # no zero column: the rank-1 term must not vanish
+        for j in range(U['c']):
+            if all(U['d'][i][j] == 0 for i in range(U['r'])):
+                U['d'][rng.randrange(U['r'])][j] = 1.0
+    # generic (not exactly representable) entries: with integer data every product and sum above is exact in
+    # binary64 and no norm algorithm shows its rounding behaviour
+    for U in Us:
+        U['d'] = [[v / 7.0 for v in row] for row in U['d']]
+    X = np.array(G.rint_full(rng, Rs, -2, 2)['d'], dtype=float).reshape(Rs) / 3.0
+    E = np.zeros(Rs)
+    E[tuple(rng.randrange(r) for r in Rs)] = float(rng.choice([1, 2, 3]))
+    core = np.concatenate([X, -X + delta * E], axis=0)
+    U0 = {'r': Us[0]['r'], 'c': 2 * Us[0]['c'], 'd': [row + row for row in Us[0]['d']]}
+    return {'t': 'tucker', 'Us': [U0] + Us[1:], 'X': {'sh': list(core.shape), 'd': [float(x) for x in core.ravel()]}}
+
+
 def lowrank_tensor(rng, shape, r):
     A = np.zeros(shape)
     for _ in range(r):
@@ -737,6 +757,15 @@ def run_numeric(ctx, thorough):
     for _ in range(12 * rep):
         shape = G.gen_shape(rng, d=rng.choice([1, 2, 3, 3, 4]))
         cases.append({'k': 'norm', 'A': G.gen_tensor(rng, shape, rng.choice(['canon', 'tucker']))})
+    # Tucker tensors whose expansion is tiny relative to their factors (the shape of A - compress(A) or of a
+    # difference of two nearby tensors after join_tucker_bases): first basis duplicated, core = [X ; -X + delta*E].
+    # The expansion is delta * (one rank-1 term) up to rounding of order u*S, while the
+    # scale S of the bound is that of the factors; the bound 200*(sum n + sum r)*u*S is the one derived above for
+    # the QR-based norm and is NOT met by a norm computed from Gram matrices (error sqrt(u)*S under cancellation).
+    for _ in range(8 * rep):
+        shape = G.gen_shape(rng, d=rng.choice([1, 2, 3, 3]), allow_one=False)
+        T = cancelling_tucker(rng, shape, 2.0 ** (-rng.choice([16, 22, 26, 30, 34])))
+        cases.append({'k': rng.choice(['norm', 'norm', 'orth']), 'A': T, 'family': 'cancelling'})
     for _ in range(12 * rep):
         shape = G.gen_shape(rng, d=rng.choice([1, 2, 3, 3, 4]))
         T = G.gen_tensor(rng, shape, 'tucker')
